@@ -98,7 +98,7 @@ def py_rect_maxvol(
         v = C.dot(c.conj())
         l = 1.0 / (1 + v[i])
         ger(-l, v, c, a=C, overwrite_a=1)
-        C = np.hstack([C, l * v.reshape(-1, 1)])
+        C = np.asfortranarray(np.hstack([C, l * v.reshape(-1, 1)]))
         row_norm_sqr -= (l * v[:top_k_index] * v[:top_k_index].conj()).real
         row_norm_sqr *= chosen
         # find maximum value in row_norm_sqr
